@@ -49,4 +49,538 @@ theorem select_from {α : Type} (sel : List Nat) (mp : Nat) (pages : List α) (i
       · simp only [hs, hin, Bool.and_self, if_true, List.map_cons, ih']; simp
       · simp only [hs, Bool.false_and, ih']; simp
 
+/-! ### Overlay of inheritable attributes -/
+
+theorem lookup_filter_key {β : Type} (f : String → Bool) (P : List (String × β)) (k : String) :
+    (P.filter (fun kv => f kv.1)).lookup k = if f k then P.lookup k else none := by
+  induction P with
+  | nil => simp
+  | cons kv P ih =>
+    obtain ⟨k', v⟩ := kv
+    by_cases hf : f k' = true
+    · simp only [List.filter_cons, hf, if_true, List.lookup_cons]
+      by_cases hk : (k == k') = true
+      · have : k = k' := by simpa using hk
+        subst this
+        simp [hf]
+      · simp only [hk]
+        exact ih
+    · simp only [List.filter_cons, hf, List.lookup_cons]
+      by_cases hk : (k == k') = true
+      · have : k = k' := by simpa using hk
+        subst this
+        simp [hf, ih]
+      · simp only [hk]
+        exact ih
+
+theorem dget_overlay (P d : Dict) (k : String) :
+    dget (overlay P d) k =
+      (dget d k).or (if INHERITABLE_ATTRS.contains k then dget P k else none) := by
+  unfold overlay dget
+  rw [List.lookup_append]
+  have := lookup_filter_key (fun k' => INHERITABLE_ATTRS.contains k' && (List.lookup k' d).isNone) P k
+  rw [this]
+  cases h : List.lookup k d <;> simp
+
+
+theorem dget_overlay_inh (P d : Dict) (k : String) (hk : k ∈ INHERITABLE_ATTRS) :
+    dget (overlay P d) k = (dget d k).or (dget P k) := by
+  rw [dget_overlay]
+  simp [hk]
+
+theorem dget_overlay_other (P d : Dict) (k : String) (hk : k ∉ INHERITABLE_ATTRS) :
+    dget (overlay P d) k = dget d k := by
+  rw [dget_overlay]
+  simp [hk]
+
+theorem nodeType_overlay (P d : Dict) : nodeType (overlay P d) = nodeType d := by
+  unfold nodeType
+  rw [dget_overlay_other P d "Type" (by decide), dget_overlay_other P d "type" (by decide)]
+
+theorem inherited_cons (d : Dict) (anc : List Dict) (k : String) :
+    inherited (d :: anc) k = (dget d k).or (inherited anc k) := by
+  unfold inherited
+  rw [List.findSome?_cons]
+  cases dget d k <;> rfl
+
+/-! ### The walk on an embedded tree -/
+
+/-- What is compared between a model page and a specification leaf: the object number and the
+values of the inheritable attributes. -/
+def rawKey (rp : RawPage) : Nat × List (Option Val) := (rp.id, INHERITABLE_ATTRS.map (dget rp.attrs))
+def specKey (sp : Nat × List Dict) : Nat × List (Option Val) :=
+  (sp.1, INHERITABLE_ATTRS.map (inherited sp.2))
+
+structure TreeWalkOK (w : Walk) (ids vis : List Nat) (leaves : List (Nat × List Dict)) : Prop where
+  err : w.err = none
+  visited : w.visited = ids.reverse ++ vis
+  pages : w.pages.map rawKey = leaves.map specKey
+
+theorem overlay_inherits (P d : Dict) (anc : List Dict)
+    (hP : ∀ k ∈ INHERITABLE_ATTRS, dget P k = inherited anc k) :
+    ∀ k ∈ INHERITABLE_ATTRS, dget (overlay P d) k = inherited (d :: anc) k := by
+  intro k hk
+  rw [dget_overlay_inh P d k hk, inherited_cons, hP k hk]
+
+theorem isName_page_not_pages (v : Option Val) (h : isName v "Page" = true) : isName v "Pages" = false := by
+  unfold isName at *
+  have : v = some (.atom (.name "Page")) := by simpa using h
+  subst this
+  decide
+
+mutual
+theorem visit_tree (g : Store) : ∀ (t : PTree) (fuel : Nat) (P : Dict) (anc : List Dict) (vis : List Nat),
+    Embeds g t → t.depth ≤ fuel → (∀ k ∈ INHERITABLE_ATTRS, dget P k = inherited anc k) →
+    t.ids.Nodup → (∀ j ∈ t.ids, j ∉ vis) →
+    TreeWalkOK (visit g fuel (.ref t.id) P vis) t.ids vis (specLeaves t anc)
+  | .page i d, fuel, P, anc, vis, hE, hf, hP, hnd, hdis => by
+    obtain ⟨hd, hty⟩ := hE
+    cases fuel with
+    | zero => simp [PTree.depth] at hf
+    | succ f =>
+      have hi : i ∉ vis := hdis i (by simp [PTree.ids])
+      have hty' : isName (nodeType (overlay P d)) "Page" = true := by rw [nodeType_overlay]; exact hty
+      have hty'' : isName (nodeType (overlay P d)) "Pages" = false := isName_page_not_pages _ hty'
+      simp only [visit, nodeOf, PTree.id, hd, hi, if_false, hty', hty'', Bool.false_and, Bool.false_eq_true, ↓reduceIte]
+      refine ⟨rfl, by simp [PTree.ids], ?_⟩
+      simp only [specLeaves, List.map_cons, List.map_nil, rawKey, specKey, List.cons.injEq, Prod.mk.injEq,
+        true_and, and_true]
+      apply List.map_congr_left
+      intro k hk
+      exact overlay_inherits P d anc hP k hk
+  | .pages i d kids, fuel, P, anc, vis, hE, hf, hP, hnd, hdis => by
+    obtain ⟨hd, hty, ⟨kv, hkv, hlv⟩, hEk⟩ := hE
+    cases fuel with
+    | zero => simp [PTree.depth] at hf
+    | succ f =>
+      have hi : i ∉ vis := hdis i (by simp [PTree.ids])
+      have hty' : isName (nodeType (overlay P d)) "Pages" = true := by rw [nodeType_overlay]; exact hty
+      have hk' : dget (overlay P d) "Kids" = some kv := by
+        rw [dget_overlay_other P d "Kids" (by decide)]; exact hkv
+      simp only [PTree.ids, List.nodup_cons] at hnd
+      have hdis' : ∀ j ∈ idsL kids, j ∉ i :: vis := by
+        intro j hj hmem
+        rcases List.mem_cons.mp hmem with h | h
+        · subst h; exact hnd.1 hj
+        · exact hdis j (by simp [PTree.ids, hj]) h
+      have hf' : depthL kids ≤ f := by simp only [PTree.depth] at hf; omega
+      have ih := walk_trees g kids f (overlay P d) (d :: anc) (i :: vis) hEk hf'
+        (overlay_inherits P d anc hP) hnd.2 hdis'
+      simp only [visit, nodeOf, PTree.id, hd, hi, if_false, hty', hk', Option.isSome_some, Bool.and_self,
+        if_true, Option.getD_some, hlv, ↓reduceIte]
+      refine ⟨ih.err, ?_, ?_⟩
+      · rw [ih.visited]; simp [PTree.ids]
+      · rw [ih.pages]; simp [specLeaves]
+theorem walk_trees (g : Store) : ∀ (ts : List PTree) (fuel : Nat) (P : Dict) (anc : List Dict) (vis : List Nat),
+    EmbedsL g ts → depthL ts ≤ fuel → (∀ k ∈ INHERITABLE_ATTRS, dget P k = inherited anc k) →
+    (idsL ts).Nodup → (∀ j ∈ idsL ts, j ∉ vis) →
+    TreeWalkOK (walkKids (visit g fuel) (kidRefs ts) P vis) (idsL ts) vis (specLeavesL ts anc)
+  | [], fuel, P, anc, vis, _, _, _, _, _ => by
+    simp only [kidRefs, List.map_nil, walkKids, idsL, specLeavesL]
+    exact ⟨rfl, by simp, by simp⟩
+  | t :: ts, fuel, P, anc, vis, hE, hf, hP, hnd, hdis => by
+    obtain ⟨hEt, hEts⟩ := hE
+    simp only [idsL, List.nodup_append] at hnd
+    obtain ⟨hnd1, hnd2, hdisj⟩ := hnd
+    simp only [depthL] at hf
+    have h1 := visit_tree g t fuel P anc vis hEt (by omega) hP hnd1
+      (fun j hj => hdis j (by simp [idsL, hj]))
+    have hdis2 : ∀ j ∈ idsL ts, j ∉ t.ids.reverse ++ vis := by
+      intro j hj hmem
+      rcases List.mem_append.mp hmem with h | h
+      · exact hdisj j (List.mem_reverse.mp h) j hj rfl
+      · exact hdis j (by simp [idsL, hj]) h
+    have h2 := walk_trees g ts fuel P anc (t.ids.reverse ++ vis) hEts (by omega) hP hnd2 hdis2
+    simp only [kidRefs, List.map_cons, walkKids, h1.err]
+    rw [h1.visited]
+    refine ⟨h2.err, ?_, ?_⟩
+    · show (walkKids (visit g fuel) (kidRefs ts) P (t.ids.reverse ++ vis)).visited = _
+      rw [h2.visited]; simp [idsL]
+    · show List.map rawKey ((visit g fuel (Atom.ref t.id) P vis).pages ++
+          (walkKids (visit g fuel) (kidRefs ts) P (t.ids.reverse ++ vis)).pages) = _
+      rw [List.map_append, h1.pages, h2.pages]; simp [specLeavesL]
+end
+
+/-! ### From raw pages to PDFPage objects -/
+
+theorem finish_map {α β : Type} (a : α → β) (F : β → Except Err Page) (mk : α → Except Err Page)
+    (h : ∀ x, mk x = F (a x)) : ∀ (l : List α) (e : Option Err), finish mk l e = finish F (l.map a) e := by
+  intro l e
+  induction l with
+  | nil => simp [finish]
+  | cons x xs ih =>
+    simp only [finish, List.map_cons, h x]
+    cases F (a x) with
+    | error e' => rfl
+    | ok pg => simp only [ih]
+
+theorem lookup_zip_map {β : Type} (f : String → β) (k : String) :
+    ∀ (l : List String), k ∈ l → (l.zip (l.map f)).lookup k = some (f k) := by
+  intro l
+  induction l with
+  | nil => intro h; simp at h
+  | cons x xs ih =>
+    intro h
+    simp only [List.map_cons, List.zip_cons_cons, List.lookup_cons]
+    by_cases hk : (k == x) = true
+    · have : k = x := by simpa using hk
+      subst this; simp
+    · simp only [hk]
+      have : k ≠ x := by simpa using hk
+      exact ih (by simpa [this] using h)
+
+/-- `PDFPage.__init__` from the object number and the values of the inheritable attributes. -/
+def keyPage (g : Store) (key : Nat × List (Option Val)) : Except Err Page :=
+  let look := fun k => ((INHERITABLE_ATTRS.zip key.2).lookup k).join
+  mkPage g key.1 (look "Resources") (look "MediaBox") (look "CropBox") (look "Rotate")
+
+theorem pageOfRaw_eq (g : Store) (rp : RawPage) : pageOfRaw g rp = keyPage g (rawKey rp) := by
+  unfold pageOfRaw keyPage rawKey
+  simp only [lookup_zip_map (dget rp.attrs) "Resources" INHERITABLE_ATTRS (by decide),
+    lookup_zip_map (dget rp.attrs) "MediaBox" INHERITABLE_ATTRS (by decide),
+    lookup_zip_map (dget rp.attrs) "CropBox" INHERITABLE_ATTRS (by decide),
+    lookup_zip_map (dget rp.attrs) "Rotate" INHERITABLE_ATTRS (by decide), Option.join_some]
+
+theorem specPage_eq (g : Store) (sp : Nat × List Dict) : specPage g sp = keyPage g (specKey sp) := by
+  unfold specPage keyPage specKey
+  simp only [lookup_zip_map (inherited sp.2) "Resources" INHERITABLE_ATTRS (by decide),
+    lookup_zip_map (inherited sp.2) "MediaBox" INHERITABLE_ATTRS (by decide),
+    lookup_zip_map (inherited sp.2) "CropBox" INHERITABLE_ATTRS (by decide),
+    lookup_zip_map (inherited sp.2) "Rotate" INHERITABLE_ATTRS (by decide), Option.join_some]
+
+theorem finish_of_keys (g : Store) (raw : List RawPage) (leaves : List (Nat × List Dict)) (e : Option Err)
+    (h : raw.map rawKey = leaves.map specKey) :
+    finish (pageOfRaw g) raw e = finish (specPage g) leaves e := by
+  rw [finish_map rawKey (keyPage g) (pageOfRaw g) (pageOfRaw_eq g),
+    finish_map specKey (keyPage g) (specPage g) (specPage_eq g), h]
+
+/-! ### Arbitrary graphs: visited set, termination -/
+
+/-- Invariant of every (partial) walk started with visited set `vis`: the visited set only grows at
+the front, stays duplicate-free, and the pages yielded are among the newly visited nodes, in
+visiting order. -/
+def WalkInv (w : Walk) (vis : List Nat) : Prop :=
+  ∃ new, w.visited = new ++ vis ∧ (vis.Nodup → (new ++ vis).Nodup) ∧
+    (w.pages.map (·.id)).Sublist new.reverse
+
+theorem walkKids_inv (visitOne : Atom → Dict → List Nat → Walk)
+    (hv : ∀ k P vis, WalkInv (visitOne k P vis) vis) :
+    ∀ ks P vis, WalkInv (walkKids visitOne ks P vis) vis := by
+  intro ks
+  induction ks with
+  | nil => intro P vis; exact ⟨[], by simp [walkKids], by simp, by simp [walkKids]⟩
+  | cons k ks ih =>
+    intro P vis
+    obtain ⟨new1, hv1, hn1, hs1⟩ := hv k P vis
+    simp only [walkKids]
+    cases he : (visitOne k P vis).err with
+    | some e => exact ⟨new1, hv1, hn1, hs1⟩
+    | none =>
+      obtain ⟨new2, hv2, hn2, hs2⟩ := ih P (visitOne k P vis).visited
+      refine ⟨new2 ++ new1, ?_, ?_, ?_⟩
+      · rw [hv2, hv1, List.append_assoc]
+      · intro h
+        have := hn2 (by rw [hv1]; exact hn1 h)
+        rw [hv1] at this
+        simpa [List.append_assoc] using this
+      · simp only [List.map_append, List.reverse_append]
+        exact List.Sublist.append hs1 hs2
+
+theorem visit_inv (g : Store) : ∀ fuel kid P vis, WalkInv (visit g fuel kid P vis) vis := by
+  intro fuel
+  induction fuel with
+  | zero => intro kid P vis; exact ⟨[], by simp [visit], by simp, by simp [visit]⟩
+  | succ f ih =>
+    intro kid P vis
+    simp only [visit]
+    cases hn : nodeOf g kid with
+    | error e => exact ⟨[], by simp, by simp, by simp⟩
+    | ok r =>
+      obtain ⟨id, props0⟩ := r
+      simp only
+      by_cases hid : id ∈ vis
+      · simp only [hid, if_true]; exact ⟨[], by simp, by simp, by simp⟩
+      · simp only [hid, if_false]
+        split
+        · obtain ⟨new, h1, h2, h3⟩ := walkKids_inv (visit g f) (ih) 
+            (listValue g ((dget (overlay P props0) "Kids").getD (.atom .null))) (overlay P props0) (id :: vis)
+          refine ⟨new ++ [id], by simp [h1], ?_, ?_⟩
+          · intro h
+            have := h2 (List.nodup_cons.mpr ⟨hid, h⟩)
+            simpa [List.append_assoc] using this
+          · simp only [List.reverse_append, List.reverse_cons, List.reverse_nil, List.nil_append,
+              List.singleton_append]
+            exact List.Sublist.cons _ h3
+        · split
+          · refine ⟨[id], by simp, ?_, by simp⟩
+            intro h; exact List.nodup_cons.mpr ⟨hid, h⟩
+          · refine ⟨[id], by simp, ?_, by simp⟩
+            intro h; exact List.nodup_cons.mpr ⟨hid, h⟩
+
+/-- Number of the given nodes not yet visited. -/
+def unvisited (nodes vis : List Nat) : Nat := (nodes.filter (fun n => !vis.contains n)).length
+
+theorem filter_length_mono (p q : Nat → Bool) (h : ∀ n, q n = true → p n = true) :
+    ∀ l : List Nat, (l.filter q).length ≤ (l.filter p).length := by
+  intro l
+  induction l with
+  | nil => simp
+  | cons x xs ih =>
+    simp only [List.filter_cons]
+    by_cases hq : q x = true
+    · simp only [hq, h x hq, if_true, List.length_cons]; omega
+    · simp only [hq, Bool.false_eq_true, ↓reduceIte]
+      by_cases hp : p x = true
+      · simp only [hp, if_true, List.length_cons]; omega
+      · simp only [hp, Bool.false_eq_true, ↓reduceIte]; exact ih
+
+theorem filter_length_lt (p q : Nat → Bool) (h : ∀ n, q n = true → p n = true) (x : Nat)
+    (hp : p x = true) (hq : q x = false) :
+    ∀ l : List Nat, x ∈ l → (l.filter q).length < (l.filter p).length := by
+  intro l
+  induction l with
+  | nil => intro hx; simp at hx
+  | cons y ys ih =>
+    intro hx
+    simp only [List.filter_cons]
+    by_cases hy : y = x
+    · subst hy
+      simp only [hq, hp, if_true, List.length_cons, Bool.false_eq_true, if_false]
+      have := filter_length_mono p q h ys
+      omega
+    · have hx' : x ∈ ys := by
+        rcases List.mem_cons.mp hx with h' | h'
+        · exact absurd h'.symm hy
+        · exact h'
+      have := ih hx'
+      by_cases hqy : q y = true
+      · simp only [hqy, h y hqy, if_true, List.length_cons]; omega
+      · simp only [hqy, Bool.false_eq_true, ↓reduceIte]
+        by_cases hpy : p y = true
+        · simp only [hpy, if_true, List.length_cons]; omega
+        · simp only [hpy, Bool.false_eq_true, ↓reduceIte]; exact this
+
+theorem unvisited_mono (nodes new vis : List Nat) : unvisited nodes (new ++ vis) ≤ unvisited nodes vis := by
+  unfold unvisited
+  apply filter_length_mono
+  intro n hn
+  simp only [Bool.not_eq_true', List.contains_eq_mem, List.mem_append, decide_eq_false_iff_not, not_or] at hn ⊢
+  exact hn.2
+
+theorem unvisited_cons_lt (nodes vis : List Nat) (id : Nat) (hin : id ∈ nodes) (hid : id ∉ vis) :
+    unvisited nodes (id :: vis) < unvisited nodes vis := by
+  unfold unvisited
+  apply filter_length_lt _ _ _ id _ _ nodes hin
+  · intro n hn
+    simp only [Bool.not_eq_true', List.contains_eq_mem, List.mem_cons, decide_eq_false_iff_not, not_or] at hn ⊢
+    exact hn.2
+  · simpa using hid
+  · simp
+
+theorem walkKids_fuel (nodes : List Nat) (F : Nat) (visitOne : Atom → Dict → List Nat → Walk)
+    (hinv : ∀ k P vis, WalkInv (visitOne k P vis) vis)
+    (hfuel : ∀ k P vis, unvisited nodes vis < F → (visitOne k P vis).err ≠ some .fuel) :
+    ∀ ks P vis, unvisited nodes vis < F → (walkKids visitOne ks P vis).err ≠ some .fuel := by
+  intro ks
+  induction ks with
+  | nil => intro P vis _; simp [walkKids]
+  | cons k ks ih =>
+    intro P vis hlt
+    simp only [walkKids]
+    cases he : (visitOne k P vis).err with
+    | some e =>
+      simp only
+      rw [he]
+      have := hfuel k P vis hlt
+      rw [he] at this
+      exact this
+    | none =>
+      simp only
+      obtain ⟨new1, hv1, _, _⟩ := hinv k P vis
+      apply ih
+      rw [hv1]
+      exact Nat.lt_of_le_of_lt (unvisited_mono nodes new1 vis) hlt
+
+theorem nodeOf_err_ne_fuel (g : Store) (kid : Atom) (e : Err) (h : nodeOf g kid = .error e) : e ≠ .fuel := by
+  unfold nodeOf at h
+  split at h
+  · cases h
+  · split at h
+    · split at h
+      · cases h
+      · cases h; decide
+    · cases h; decide
+  · cases h; decide
+
+theorem nodeOf_nonempty (g : Store) (kid : Atom) (id : Nat) (props0 : Dict)
+    (h : nodeOf g kid = .ok (id, props0)) (hne : props0 ≠ []) : g id ≠ none := by
+  unfold nodeOf at h
+  split at h
+  · rename_i n
+    cases h
+    intro hg
+    apply hne
+    simp [dictValue, resolve, refFuel, hg]
+  · split at h
+    · split at h
+      · rename_i hsome
+        cases h
+        rw [hsome]; simp
+      · cases h
+    · cases h
+  · cases h
+
+theorem pages_type_nonempty (P props0 : Dict)
+    (h : isName (nodeType (overlay P props0)) "Pages" = true) : props0 ≠ [] := by
+  intro hnil
+  subst hnil
+  rw [nodeType_overlay] at h
+  simp [nodeType, dget, isName] at h
+
+theorem visit_fuel (g : Store) (nodes : List Nat) (hfin : ∀ n, g n ≠ none → n ∈ nodes) :
+    ∀ fuel kid P vis, unvisited nodes vis < fuel → (visit g fuel kid P vis).err ≠ some .fuel := by
+  intro fuel
+  induction fuel with
+  | zero => intro kid P vis h; omega
+  | succ f ih =>
+    intro kid P vis hlt
+    simp only [visit]
+    cases hn : nodeOf g kid with
+    | error e =>
+      simp only
+      intro h
+      exact nodeOf_err_ne_fuel g kid e hn (by simpa using h)
+    | ok r =>
+      obtain ⟨id, props0⟩ := r
+      simp only
+      by_cases hid : id ∈ vis
+      · simp [hid]
+      · simp only [hid, if_false]
+        split
+        · rename_i hcond
+          have hty : isName (nodeType (overlay P props0)) "Pages" = true := by
+            simp only [Bool.and_eq_true] at hcond; exact hcond.1
+          have hin : id ∈ nodes := hfin id (nodeOf_nonempty g kid id props0 hn (pages_type_nonempty P props0 hty))
+          apply walkKids_fuel nodes f (visit g f) (visit_inv g f) ih
+          have := unvisited_cons_lt nodes vis id hin hid
+          omega
+        · split <;> simp
+
+/-! ### Whole documents -/
+
+mutual
+theorem depth_le_size : ∀ t : PTree, t.depth ≤ t.ids.length
+  | .page _ _ => by simp [PTree.depth, PTree.ids]
+  | .pages _ _ kids => by
+    have := depthL_le_size kids
+    simp only [PTree.depth, PTree.ids, List.length_cons]; omega
+theorem depthL_le_size : ∀ ts : List PTree, depthL ts ≤ (idsL ts).length
+  | [] => by simp [depthL, idsL]
+  | t :: ts => by
+    have h1 := depth_le_size t
+    have h2 := depthL_le_size ts
+    simp only [depthL, idsL, List.length_append]; omega
+end
+
+theorem inherited_nil (k : String) : inherited [] k = none := by simp [inherited]
+
+theorem treeWalk_tree (g : Store) (t : PTree) (catalog : Dict) (fuel : Nat)
+    (hE : Embeds g t) (hroot : dget catalog "Pages" = some (.atom (.ref t.id)))
+    (hcat : ∀ k ∈ INHERITABLE_ATTRS, dget catalog k = none)
+    (hnd : t.ids.Nodup) (hf : t.ids.length ≤ fuel) :
+    TreeWalkOK (treeWalk g fuel catalog) t.ids [] (specLeaves t []) := by
+  unfold treeWalk
+  rw [hroot]
+  exact visit_tree g t fuel catalog [] [] hE (Nat.le_trans (depth_le_size t) hf)
+    (fun k hk => by rw [hcat k hk, inherited_nil]) hnd (by simp)
+
+/-- `toTree` only returns trees that the graph contains. -/
+theorem mapKids_embeds (g : Store) (F : Atom → Option PTree)
+    (hF : ∀ k t, F k = some t → Embeds g t ∧ k = .ref t.id) :
+    ∀ ks ts, mapKids F ks = some ts → EmbedsL g ts ∧ ks = kidRefs ts := by
+  intro ks
+  induction ks with
+  | nil => intro ts h; simp [mapKids] at h; subst h; simp [EmbedsL, kidRefs]
+  | cons k ks ih =>
+    intro ts h
+    simp only [mapKids] at h
+    cases h1 : F k with
+    | none => simp [h1] at h
+    | some t =>
+      cases h2 : mapKids F ks with
+      | none => simp [h1, h2] at h
+      | some ts' =>
+        simp only [h1, h2, Option.some.injEq] at h
+        subst h
+        obtain ⟨hE, hk⟩ := hF k t h1
+        obtain ⟨hEs, hks⟩ := ih ts' h2
+        exact ⟨⟨hE, hEs⟩, by simp [kidRefs, hk, hks]⟩
+
+theorem toTree_embeds (g : Store) : ∀ fuel a t, toTree g fuel a = some t → Embeds g t ∧ a = .ref t.id := by
+  intro fuel
+  induction fuel with
+  | zero => intro a t h; simp [toTree] at h
+  | succ f ih =>
+    intro a t h
+    cases a with
+    | ref n =>
+      simp only [toTree] at h
+      split at h
+      · rename_i hpage
+        cases h
+        exact ⟨⟨rfl, hpage⟩, rfl⟩
+      · split at h
+        · rename_i hpages
+          split at h
+          · rename_i kv hkv
+            cases hm : mapKids (toTree g f) (listValue g kv) with
+            | none => simp [hm] at h
+            | some ks =>
+              simp only [hm, Option.map_eq_map, Option.map_some, Option.some.injEq] at h
+              subst h
+              obtain ⟨hEs, hks⟩ := mapKids_embeds g (toTree g f) ih _ _ hm
+              exact ⟨⟨rfl, hpages, ⟨kv, hkv, hks⟩, hEs⟩, rfl⟩
+          · cases h
+        · cases h
+    | int i => simp [toTree] at h
+    | real q => simp [toTree] at h
+    | name s => simp [toTree] at h
+    | null => simp [toTree] at h
+
+
+theorem nodupNat_sound : ∀ l : List Nat, nodupNat l = true → l.Nodup := by
+  intro l
+  induction l with
+  | nil => intro _; exact List.nodup_nil
+  | cons x xs ih =>
+    intro h
+    simp only [nodupNat, Bool.and_eq_true, Bool.not_eq_true', List.contains_eq_mem, decide_eq_false_iff_not] at h
+    exact List.nodup_cons.mpr ⟨h.1, ih h.2⟩
+
+/-- What the driver's domain test `docTree` guarantees. -/
+theorem docTree_sound (g : Store) (fuel : Nat) (catalog : Dict) (t : PTree)
+    (h : docTree g fuel catalog = some t) :
+    Embeds g t ∧ dget catalog "Pages" = some (.atom (.ref t.id)) ∧
+      (∀ k ∈ INHERITABLE_ATTRS, dget catalog k = none) ∧ t.ids.Nodup := by
+  unfold docTree at h
+  split at h
+  · cases h
+  · rename_i hany
+    split at h
+    · rename_i a ha
+      split at h
+      · rename_i t' ht
+        split at h
+        · rename_i hnd
+          cases h
+          obtain ⟨hE, hid⟩ := toTree_embeds g fuel a t ht
+          refine ⟨hE, by rw [ha, hid], ?_, nodupNat_sound _ hnd⟩
+          intro k hk
+          simp only [List.any_eq_true, not_exists, not_and, Bool.not_eq_true, Option.isSome_eq_false_iff,
+            Option.isNone_iff_eq_none] at hany
+          exact hany k hk
+        · cases h
+      · cases h
+    · cases h
+
 end PdfVerif.PageTree
